@@ -5,6 +5,7 @@
 package simsolid
 
 import (
+	"runtime"
 	"math"
 
 	"github.com/unixpickle/model3d/model2d"
@@ -262,6 +263,44 @@ func (c *Counter) note(x [3]float64, yielded bool) {
 	c.mu.Unlock()
 }
 
+// procFault: the "configuration changes under a running call" fault.  Go adjusts
+// GOMAXPROCS at run time when the container's CPU limit changes (1.25+), and any
+// part of a program may call runtime.GOMAXPROCS; a library call that is in
+// progress must not lose or duplicate work because of it.  Armed per simulated run
+// by the workload; fires inside the at-th Contains call of that run.
+var procFault struct {
+	mu        simsched.Mu
+	at, to, n int
+	fired     int
+}
+
+// ArmProcs arms the fault (at = 0 disarms) and returns how often it has fired
+// since the last call.
+//
+//go:norace
+func ArmProcs(at, to int) int {
+	procFault.mu.Lock()
+	f := procFault.fired
+	procFault.at, procFault.to, procFault.n, procFault.fired = at, to, 0, 0
+	procFault.mu.Unlock()
+	return f
+}
+
+//go:norace
+func procTick() {
+	procFault.mu.Lock()
+	procFault.n++
+	fire := procFault.at > 0 && procFault.n == procFault.at
+	to := procFault.to
+	if fire {
+		procFault.fired++
+	}
+	procFault.mu.Unlock()
+	if fire {
+		runtime.GOMAXPROCS(to)
+	}
+}
+
 // Solid3 adapts a Shape to model3d.Solid.
 type Solid3 struct {
 	S          *Shape
@@ -285,6 +324,7 @@ func (s *Solid3) Max() model3d.Coord3D { _, hi := s.S.Bounds(); return model3d.N
 func (s *Solid3) Contains(c model3d.Coord3D) bool {
 	x := c.Array()
 	y := false
+	procTick()
 	if s.YieldEvery != 0 {
 		if h := hash3(x, s.Salt); h%s.YieldEvery == 0 {
 			simsched.Yield("solid.contains", int(h>>40&0xff))
@@ -325,6 +365,7 @@ func (s *Solid2) Max() model2d.Coord { _, hi := s.S.Bounds(); return model2d.XY(
 func (s *Solid2) Contains(c model2d.Coord) bool {
 	x := [3]float64{c.X, c.Y, 0}
 	y := false
+	procTick()
 	if s.YieldEvery != 0 {
 		if h := hash3(x, s.Salt); h%s.YieldEvery == 0 {
 			simsched.Yield("solid.contains", int(h>>40&0xff))
